@@ -285,7 +285,7 @@ class IncrementalDecoder(codecs.IncrementalDecoder):
             result = self.decode(part, False)
             if result:
                 yield result
-        result = self.decode("", True)
+        result = self.decode(b"", True)
         if result:
             yield result
 
